@@ -391,8 +391,12 @@ def run(ctx):
     ctx.count("documents.accepted_by_both", sum(1 for m, r in zip(mres, ires) if m[0] == 1 and r[0] == 1))
     ctx.count("documents.rejected_by_both", sum(1 for m, r in zip(mres, ires) if m[0] == 0 and r[0] == 0))
     ctx.count("documents.impl_panics", sum(1 for r in ires if r[0] == 254))
-    ctx.notes.append("'before any storage or network access': Config::load is called by main before the action is dispatched; the trace-level "
-                     "confirmation (no access below the storage path, no connect before the rejection) is part of the trace driver")
+    if not ctx.has_failing_input():
+        from vlib import cfgrun
+        cfgrun.run(ctx)
+    ctx.notes.append("'before any storage or network access and without side effects': vlib/cfgrun.py runs the real `vsb backup|upload|restore` under strace on "
+                     "a valid sandboxed document with one fault of the property's list at a time: nothing executed, no inet connect, no path at or below the "
+                     "storage / items / restore target touched, sandbox unchanged")
     ctx.assumptions += ["serde_yaml's parsing and core-schema resolution of the scalar spellings used by the generator (the tree handed to the "
                         "model is the generator's own, with the kind each spelling resolves to)",
                         "validator derive semantics (length / range / nested)"]
